@@ -22,8 +22,16 @@ META = {
 
 
 def run(ctx):
+    import wrapper_corr
+
     runner_corr.run_cluster(ctx, "C08")
+    wrapper_corr.run_wrapper_level(ctx, "C08")
 
 
 def replay(ctx, case):
+    inp = case.get("case", case).get("input", case.get("input")) or {}
+    if "wrapper_level" in inp:
+        import wrapper_corr
+
+        return wrapper_corr.replay_wrapper_level(ctx, "C08", inp["wrapper_level"])
     runner_corr.replay_case(ctx, "C08", case)
